@@ -7,16 +7,22 @@ PID = "C07"
 ENTRIES = {"c07_parse": ("Arith.Entry", "entry_c07_parse"), "c07_eval": ("Arith.Entry", "entry_c07_eval"),
            "c07_roundtrip": ("Arith.Entry", "entry_c07_roundtrip")}
 TRUSTED = [
-    "modelled, not verified: brush-parser/src/arithmetic.rs (grammar; the precedence!{} block and the lexical "
-    "classes are regenerated into gen/C07ArithTable.v, the algorithm rust-peg 0.8.6 generates for precedence!{} is "
-    "modelled by Arith/PegPrec.v), brush-core/src/arithmetic.rs (eval_expr_impl and helpers) over scalar variables; "
-    "array element storage is outside the model (EArray)",
-    "spec oracle: props/c07_oracle.py (bash expr.c as recursive descent over Python integers), validated against "
-    "/usr/bin/bash 5.2.15 in the thorough tier; bash itself confirms every candidate violation",
-    "word expansion preceding $(( )) / (( )) is not modelled: generated expressions contain no $, quotes, backslashes or braces",
+    "modelled, not verified: brush-parser/src/arithmetic.rs (the precedence!{} block, the lexical classes, radix bounds, "
+    "digit maps and which literal function each alternative calls are regenerated into gen/C07ArithTable.v; the algorithm "
+    "rust-peg 0.8.6 generates for precedence!{} is modelled by Arith/PegPrec.v from reading peg-macros translate.rs), "
+    "brush-core/src/arithmetic.rs (eval_expr_impl and helpers) over scalar variables; array element storage is outside "
+    "the model (EArray marker; the evaluator generators produce no subscripts; the parser model handles them)",
+    "spec oracle: props/c07_oracle.py (bash expr.c as tokenizer + recursive descent + evaluator over Python integers), "
+    "validated against /usr/bin/bash 5.2.15: every candidate violation is confirmed with bash on every run, the thorough "
+    "tier compares brush with bash on all evaluator cases; two bash quirks are deliberately not followed (negative exponent "
+    "raised inside a skipped branch; the exact recursion-limit count)",
+    "word expansion preceding $(( )) / (( )) / ${s:expr} / ${a[expr]} is not modelled: generated expressions contain no "
+    "$, quotes, backslashes or braces",
 ]
 ASSUMPTIONS = ["variables are plain scalars (no integer/readonly attributes, no arrays, no namerefs)",
-               "expressions reach the arithmetic parser unchanged by word expansion (no $ ` \\ quotes in them)"]
+               "expressions reach the arithmetic parser unchanged by word expansion (no $ ` \\ quotes in them)",
+               "c07_parse_render covers renderings with one blank between tokens and decimal literals below 2^63; other "
+               "spacings and literal forms are covered by the correspondence and the oracle comparison only"]
 
 NAMES = ["a", "b", "c", "x", "y", "z", "_t", "V9"]
 OBS = " ".join(NAMES)
@@ -456,7 +462,7 @@ def compare_spec(c, code_fields):
     if code_fields[:2] == head and (obs is None or code_fields[2:] == obs):
         return None
     why = "expected %s %s, code gave %s" % (head, obs, code_fields)
-    if head[0] == "err" and code_fields[0] == "err" and not top_syntax:
+    if head[0] == "err" and code_fields[0] == "err":
         why = "ERRCLASS " + why
     for kid, flag in KF_FLAGS:
         fl = frozenset([flag])
